@@ -53,6 +53,26 @@ def main():
                    b"@@\nvar x expression\n@@\n package store\n\n-get(x)\n+fetch(x)\n"):
             src = ("package %s\n\nfunc f() {\n\tfoo()\n\t_ = get(1)\n}\n" % pk).encode()
             pairs.append(("p.patch", pt, "a.go", src)); names.append("pkg-clause:%s" % pk)
+    # declaration-level rewrites by a change that also edits the imports: the import declaration is inserted into
+    # (or removed from) File.Decls, whose elements the rewrites address; neighbours must be untouched
+    DECL_CHANGES = [b"-func target() {\n+func target(x int) {\n   ...\n }\n", b"-func target() {\n+func renamed() {\n   ...\n }\n",
+                    b"-type T struct {\n-  ...\n-}\n+type T interface{}\n", b"-var target = 1\n+var target = 2\n",
+                    b"-func (r R) target() {\n+func target() {\n   ...\n }\n"]
+    IMP_EDITS = [b"+import \"fmt\"\n\n", b"+import q \"example.com/q\"\n\n", b"-import \"os\"\n+import \"example.com/newos\"\n\n", b"-import \"os\"\n\n",
+                 b"+import \"fmt\"\n+import \"strings\"\n\n", b" import \"os\"\n+import \"fmt\"\n\n"]
+    HEADS = [b"package p\n\n", b"package p\n\nimport \"os\"\n\n", b"package p\n\nimport (\n\t\"bytes\"\n\t\"os\"\n)\n\n",
+             b"package p\n\nimport \"bytes\"\n\nimport \"os\"\n\n", b"// doc\npackage p // c\n\n"]
+    BODY = [b"func before() { b() }\n\n", b"func target() { t() }\n\n", b"type T struct {\n\tA int\n}\n\n", b"var target = 1\n\n", b"func (r R) target() { m() }\n\n",
+            b"func after() { os.Exit(1) }\n\n", b"var keep = []int{1, 2}\n\n"]
+    kk = 0
+    for dc in DECL_CHANGES:
+        for ie in IMP_EDITS:
+            for hd in HEADS:
+                kk += 1
+                if not thorough and kk % 2:
+                    continue
+                body = list(BODY); ck.rng.shuffle(body)
+                pairs.append(("p.patch", b"@@\n@@\n" + ie + dc, "a.go", hd + b"".join(body))); names.append("decl+imports#%d" % kk)
     for k in range(600 if thorough else 120):
         nm, p, f, meta = enginegen.stmt_case(ck.rng, k)
         pairs.append(("p.patch", p, "a.go", f)); names.append(nm)
